@@ -180,7 +180,44 @@ static int FreezeLarge(const std::string &dir) {
   return 0;
 }
 
+// High-bit streams: smooth grids quantized to 24..30 bits and coded with Edgebreaker at speed 0/1 (constrained
+// multi-parallelogram prediction in its 32-bit wrap-around regime). Producing the 30-bit ones needs ~12 GiB once
+// (entropy tracker of the unchanged encoder); decoding them is cheap. Appends to digests_large.txt.
+// (one stream per process - `--freeze-highbits <dir> <k>` - because the unchanged encoder crashes on some 30-bit inputs)
+static int FreezeHighBits(const std::string &dir, int only) {
+  std::ofstream dg(dir + "/digests_large.txt", std::ios::app);
+  int written = only;
+  for (int k = only; k <= only; ++k) {
+    const int bits_k = k < 4 ? (k == 0 ? 24 : k == 1 ? 26 : k == 2 ? 28 : 29) : 30;
+    Rng r(20261002, vf::HashStr("C05-freeze-highbits"), k);
+    vf::Topo t;
+    vf::GridPatch(t, 16 + (3 * k) % 17, 14 + (2 * k) % 13, false, false, 0.4f * k);
+    vf::GenParams gp;
+    gp.allow_unused = false;
+    std::vector<vf::AttrPlan> plans = {{GeometryAttribute::POSITION, DT_FLOAT32, 3, false, 0, 0, 0}};
+    vf::Geo g = vf::BuildGeo(r, t, plans, gp);
+    vf::EncOpts o;
+    o.expert = true; o.method = 1; o.eb_method = k % 2 ? 2 : 0; o.enc_speed = o.dec_speed = k % 2;
+    o.qbits = {bits_k}; o.pred = {-100};
+    std::unique_ptr<Mesh> mesh = vf::ToMesh(g);
+    vf::EncResult er = vf::Encode(g, *mesh, mesh.get(), o);
+    if (!er.status.ok()) { fprintf(stderr, "highbits %d refused: %s\n", k, er.status.error_msg()); continue; }
+    Status st;
+    std::string d = DecodeDigest(er.bytes, 0, &st);
+    if (!st.ok()) { fprintf(stderr, "highbits %d does not decode\n", k); continue; }
+    char name[32];
+    snprintf(name, sizeof name, "H%03d.drc", written);
+    std::ofstream f(dir + "/" + name, std::ios::binary);
+    f.write(er.bytes.data(), er.bytes.size());
+    dg << name << " " << d << "\n";
+    printf("%s %zu bytes q=%d speed=%d\n", name, er.bytes.size(), bits_k, k % 2);
+    ++written;
+  }
+  return 0;
+}
+
 int main(int argc, char **argv) {
+  for (int i = 1; i + 1 < argc; ++i) if (std::string(argv[i]) == "--freeze-highbits" && i + 2 < argc) return FreezeHighBits(argv[i + 1], atoi(argv[i + 2]));
   for (int i = 1; i + 1 < argc; ++i) if (std::string(argv[i]) == "--freeze-large") return FreezeLarge(argv[i + 1]);
   for (int i = 1; i < argc; ++i) {
     if (std::string(argv[i]) == "--freeze" && i + 2 < argc) return Freeze(argv[i + 1], atoi(argv[i + 2]));
